@@ -8,7 +8,8 @@ ASSUMPTIONS = ASSUME_PY + ["A-INT: int(str) as Model/KeyPattern.lean pyInt (stri
                            "key patterns of the form prefix{:d}suffix"]
 RULE = ("exhaustive offsets -3..12 x item counts 0..12 x keys {all displayed numbers, neighbours, lenient spellings, non-ASCII digits, '1_0', '', text} "
         "plus non-str keys (None, int, bytes, float, bool) and int() on exhaustive strings over {' ',+,-,_,0,1,a} up to length 4 and random ones; "
-        "non-trivial = a callback fired or a displayed number was typed")
+        "non-trivial = a callback fired or a displayed number was typed"
+        ' Later rounds: kept containers with callbacks that fail at some invocation given key sequences; nested numbered containers with key patterns of their own (the line each item starts on shows its own number).')
 
 
 def generate(rnd, tier):
